@@ -69,6 +69,15 @@ let hevent s = let k = next s in
   | _ -> HQuiescent
 let hist s = rep s hevent
 
+let gnode s = match next s with 0 -> GRoot | 1 -> GSol (nextn s) | 2 -> GUnresolved | _ -> GExcl (nextn s)
+let gedge_full s =
+  let a = nextn s in let bb = nextn s in
+  let e = (match next s with
+    | 0 -> ERequires (req s) | 1 -> ELocked (nextn s) | 2 -> EConstrains (nextn s) | 3 -> EForbid | _ -> EExcluded) in
+  ((a, bb), e)
+let graph s = let ns = rep s gnode in let es = rep s gedge_full in let r = nextn s in
+  { g_nodes = ns; g_edges = es; g_root = r }
+
 let b x = if x then "1" else "0"
 let plist l = String.concat " " (List.map (fun x -> string_of_int (int_of_n x)) l)
 let polist = function None -> "none" | Some l -> "some " ^ plist l
@@ -120,6 +129,15 @@ let () =
               (match o_greedy u p with
                | None -> "none"
                | Some g -> b (exactb (table_provider u) p g h))
+            | "graph" ->
+              (* U P graph -> truthful reachable refutes *)
+              let u = universe s in let p = problem s in let g = graph s in
+              let up = table_provider u in
+              Printf.sprintf "%s %s %s" (b (truthfulb up p g)) (b (reachableb g)) (b (refutesb up g))
+            | "core" ->
+              (* log core-ids -> core clause set (with the root) is unsatisfiable *)
+              let lg = log s in let core = nlist s in
+              b (check_core lg.l_db core)
             | "logsat" ->
               (* U P log sol -> db-ok run-ok sat-ok [first bad clause index | -] *)
               let u = universe s in let p = problem s in let lg = log s in let sol = nlist s in
